@@ -194,56 +194,61 @@ def run(chk: Check) -> None:
     plan = export_set(chk, rng, thorough)
     t0 = time.time()
     budget = 110 if not thorough else 1500
-    done, lines = [], []
     errors: dict = {}
-    for d, cfg in plan:
-        if time.time() - t0 > budget:
-            break
-        ex = progs.export(d, cfg)
-        if not ex.ok:
-            errors[ex.error.split(":")[0]] = errors.get(ex.error.split(":")[0], 0) + 1
-            continue
-        tree = modeltree.from_ir(ex.ir_model, with_vinfo=False) if ex.ir_model is not None \
-            else modeltree.from_proto(ex.proto, with_vinfo=False)
-        done.append((ex, tree))
-        lines.append(modeltree.request("scopes", tree))
-    chk.info("exports", {"planned": len(plan), "exported": len(done), "export_raised": errors,
-                         "export_wall_s": round(time.time() - t0, 1)})
-    chk.coverage["programs"] = len(done)
-    chk.log(f"phase export done at {round(time.time() - chk.t0, 1)} s ({len(done)} models)")
-    answers = common.run_driver("C03", lines)
-    chk.log(f"phase driver done at {round(time.time() - chk.t0, 1)} s")
     limitations: dict = {}
     depth_hist: dict = {}
     rejected = 0
-    for (ex, tree), ans in zip(done, answers):
-        st = modeltree.stats(tree)
-        depth_hist[st["depth"]] = depth_hist.get(st["depth"], 0) + 1
-        case = {"program": progs.describe(ex.desc), "config": ex.cfg, **st}
-        chk.count(case, nontrivial=st["depth"] > 0 or st["functions"] > 0 or st["nodes"] > 3)
-        fails, lims = oracles.loadable(ex.proto)
-        for l in lims:
-            limitations[l.split(":")[0]] = limitations.get(l.split(":")[0], 0) + 1
-        if ans != "true":
-            rejected += 1
-            if not ans.startswith("false"):
-                raise RuntimeError(f"driver C03: {ans[:300]}")
-            diag = modeltree.scope_diagnosis(tree)
-            chk.finding({"kind": "ill_scoped", "program": progs.describe(ex.desc), "why": ans[6:]},
-                        f"export rejected by the proven scope checker: {ans[6:]} {diag[:2]}",
-                        {"program": ex.desc, "config": ex.cfg, "checker": ans, "diagnosis": diag[:10],
-                         "oracles": fails})
-        for f in fails:
-            chk.finding({"kind": "not_loadable", "oracle": f["oracle"], "program": progs.describe(ex.desc)},
-                        f"{f['oracle']} rejects the export of {progs.describe(ex.desc)}: {f['msg'][:160]}",
-                        {"program": ex.desc, "config": ex.cfg, "oracle": f})
+    n_done = 0
+    for chunk in progs.chunks(plan, 400):
+        if time.time() - t0 > budget:
+            break
+        done, lines = [], []
+        for d, cfg in chunk:
+            if time.time() - t0 > budget:
+                break
+            ex = progs.export(d, cfg)
+            if not ex.ok:
+                errors[ex.error.split(":")[0]] = errors.get(ex.error.split(":")[0], 0) + 1
+                continue
+            tree = modeltree.from_ir(ex.ir_model, with_vinfo=False) if ex.ir_model is not None \
+                else modeltree.from_proto(ex.proto, with_vinfo=False)
+            done.append((ex, tree))
+            lines.append(modeltree.request("scopes", tree))
+        answers = common.run_driver("C03", lines)
+        n_done += len(done)
+        for (ex, tree), ans in zip(done, answers):
+            st = modeltree.stats(tree)
+            depth_hist[st["depth"]] = depth_hist.get(st["depth"], 0) + 1
+            case = {"program": progs.describe(ex.desc), "config": ex.cfg, **st}
+            chk.count(case, nontrivial=st["depth"] > 0 or st["functions"] > 0 or st["nodes"] > 3)
+            fails, lims = oracles.loadable(ex.proto)
+            for l in lims:
+                limitations[l.split(":")[0]] = limitations.get(l.split(":")[0], 0) + 1
+            if ans != "true":
+                rejected += 1
+                if not ans.startswith("false"):
+                    raise RuntimeError(f"driver C03: {ans[:300]}")
+                diag = modeltree.scope_diagnosis(tree)
+                chk.finding({"kind": "ill_scoped", "program": progs.describe(ex.desc), "why": ans[6:]},
+                            f"export rejected by the proven scope checker: {ans[6:]} {diag[:2]}",
+                            {"program": ex.desc, "config": ex.cfg, "checker": ans, "diagnosis": diag[:10],
+                             "oracles": fails})
+            for f in fails:
+                chk.finding({"kind": "not_loadable", "oracle": f["oracle"], "program": progs.describe(ex.desc)},
+                            f"{f['oracle']} rejects the export of {progs.describe(ex.desc)}: {f['msg'][:160]}",
+                            {"program": ex.desc, "config": ex.cfg, "oracle": f})
+        progs.clear_cache()
+        chk.log(f"{n_done} models checked at {round(time.time() - chk.t0, 1)} s")
+    chk.info("exports", {"planned": len(plan), "exported": n_done, "export_raised": errors,
+                         "wall_s": round(time.time() - t0, 1)})
+    chk.coverage["programs"] = n_done
     if naming_bad and not chk.violations and not chk.known_hits:
         chk.violation({"correspondence": "fresh_name / make_subgraph_context vs the Lean naming model",
                        "disagreements": naming_bad[:10],
                        "note": "the real naming code left the proven model, but no exported model of this run "
                                "was ill-scoped or unloadable"},
                       name="naming-correspondence", no_failing_input=True)
-    chk.add("traces_validated_against_impl", len(done))
+    chk.add("traces_validated_against_impl", n_done)
     chk.info("nesting_depth_histogram", {str(k): v for k, v in sorted(depth_hist.items())})
     chk.info("runtime_limitations_not_counted_as_failures", limitations)
     chk.info("rejected_by_checker", rejected)
